@@ -244,7 +244,10 @@ def _sib(args):
 # digit '+' (U+F8FF) and '/' -> ',' (U+FC00), last digit '+' (U+013E) and
 # '/' -> ',' (U+013F) when they end a run of 3k characters
 NAME_CHARS = ['a', '&', '-', '/', '+', ',', '~', '\n', '\t', '\x7f', 'é', '日',
-              '\U0001F600', '\uf8ff', '\ufc00', '\u013e', '\u013f']
+              '\U0001F600', '\uf8ff', '\ufc00', '\u013e', '\u013f',
+              # names that are not in a Unicode normal form: a combining mark
+              # (after 'a': NFC would compose it) and a singleton (OHM SIGN)
+              '\u0301', '\u2126']
 
 
 def _names(args):
